@@ -194,6 +194,11 @@ type Rig struct {
 	autoGate    chan struct{}
 	// calls of the code under test into the fake source (Start, SubscriptionOnStart) that have not returned
 	hooksInFlight atomic.Int64
+	// goroutines the resolver spawned for admitted subscriptions (one each: the start-up goroutine of a
+	// new trigger or the join goroutine) that have reached their first yield point, and start-up hook
+	// calls begun; both are compared with the number of admitted subscriptions for quiescence
+	spawned   atomic.Int64
+	hookBegun atomic.Int64
 }
 
 // HoldAutoDone makes the source's reaction to the end of its Start context (updater.Done()) wait
@@ -407,6 +412,7 @@ func (r *Rig) yield(point string, a, b int64) {
 	case "trigger.beforeStart":
 		if r.OwnsTrigger(a) {
 			st := &Startup{Gid: goid(), Begin: r.Clock.Tick()}
+			r.spawned.Add(1)
 			r.mu.Lock()
 			r.startups = append(r.startups, st)
 			r.startupByG[st.Gid] = st
@@ -424,6 +430,9 @@ func (r *Rig) yield(point string, a, b int64) {
 		}
 	}
 	if point == "sub.join.beforeStartupHook" {
+		if r.OwnsSub(a, b) {
+			r.spawned.Add(1)
+		}
 		r.mu.Lock()
 		s := r.byID[resolve.SubscriptionIdentifier{ConnectionID: resolve.ConnectionID(a), SubscriptionID: b}]
 		r.mu.Unlock()
@@ -891,9 +900,28 @@ type Quiet struct {
 }
 
 func (r *Rig) quietNow(requireCtx bool) string {
+	// Every admitted subscription makes the resolver spawn exactly one goroutine (start-up of a new
+	// trigger, or join). Such a goroutine is invisible until it reaches its first yield point, so the
+	// history is not over before all of them have shown up, have made their start-up hook call (hookable
+	// source) and, for start-up goroutines, have come back from Start to their last yield point.
+	admitted := r.Rep.SubInc.Load()
+	if sp := r.spawned.Load(); sp < admitted {
+		return fmt.Sprintf("goroutines of the resolver not yet running: %d seen of %d admitted subscriptions", sp, admitted)
+	}
+	if hb := r.hookBegun.Load(); r.Opts.Hookable && hb < admitted {
+		return fmt.Sprintf("start-up hook calls outstanding: %d begun of %d admitted subscriptions", hb, admitted)
+	}
 	if n := r.hooksInFlight.Load(); n != 0 {
 		return fmt.Sprintf("%d calls into the source (Start / start-up hook) have not returned", n)
 	}
+	r.mu.Lock()
+	for _, st := range r.startups {
+		if st.End.Load() == 0 {
+			r.mu.Unlock()
+			return "start-up goroutine of a trigger has not reached its last yield point"
+		}
+	}
+	r.mu.Unlock()
 	if n := r.autoPending.Load(); n != 0 {
 		return fmt.Sprintf("%d source reactions to context end still running", n)
 	}
@@ -943,6 +971,9 @@ func (r *Rig) quietNow(requireCtx bool) string {
 			if i.StartRet.Load() == 0 {
 				return fmt.Sprintf("Start of instance %d has not returned", i.ID)
 			}
+			if i.CancelTs.Load() == 0 {
+				return fmt.Sprintf("Start context of instance %d: the source's reaction to its end has not run yet", i.ID)
+			}
 		}
 	}
 	if r.Rep.SubInc.Load() != r.Rep.SubDec.Load() {
@@ -965,9 +996,14 @@ func (r *Rig) waitQuiet(requireCtx bool, hardLimit, idle time.Duration) (ok bool
 	lastClock := r.Clock.Now()
 	lastMove := time.Now()
 	for i := 0; ; i++ {
+		c0 := r.Clock.Now()
 		pending = r.quietNow(requireCtx)
 		if pending == "" {
-			return true, false, ""
+			if r.Clock.Now() == c0 {
+				return true, false, ""
+			}
+			// something was recorded while the conditions were being evaluated: evaluate again
+			pending = "not stable yet"
 		}
 		now := time.Now()
 		if c := r.Clock.Now(); c != lastClock {
